@@ -9,6 +9,7 @@ import (
 	"path/filepath"
 	"sort"
 	"strings"
+	"sync/atomic"
 	"time"
 
 	"verif/internal/eng"
@@ -366,6 +367,7 @@ func c04(c *ev.Ctx) {
 	})
 	c04SameReference(c)
 	c04HostileInChild(c)
+	c04Shapes(c)
 	// a slice / map field is handed out by reference from the per-run field table: no
 	// built-in applied to it may change what the field shows afterwards
 	c16BuiltinsKeepArgument(c, "Tags", func(lit string) (string, map[string]interface{}) {
@@ -664,6 +666,134 @@ func c04SameReference(c *ev.Ctx) {
 						return
 					}
 				}
+			}
+		}
+	}
+}
+
+// C04Audit is embedded in the documents below (an exported type, so that its fields
+// could be reached by an engine that promotes them).
+type C04Audit struct {
+	Name string
+	By   string
+	Size int
+}
+
+// C04Stamp is a second embedded type with overlapping field names.
+type C04Stamp struct {
+	Size float64
+	At   string
+}
+
+type c04DocFirst struct {
+	C04Audit
+	Name string
+	Size int
+}
+
+type c04DocLast struct {
+	Name string
+	Size int
+	C04Audit
+}
+
+type c04DocTwo struct {
+	Size int
+	C04Stamp
+	Name string
+	C04Audit
+	Tags []string
+}
+
+var c04MethodCalls int64
+
+// c04Tempting has fields, and methods a careless engine could take for fields.
+type c04Tempting struct {
+	Count int
+	Label string
+}
+
+func (t c04Tempting) Archive() error    { atomic.AddInt64(&c04MethodCalls, 1); return nil }
+func (t c04Tempting) Save() bool        { atomic.AddInt64(&c04MethodCalls, 1); return true }
+func (t c04Tempting) Total() int        { atomic.AddInt64(&c04MethodCalls, 1); return 99 }
+func (t c04Tempting) String() string    { atomic.AddInt64(&c04MethodCalls, 1); return "stringer" }
+func (t *c04Tempting) Delete() error    { atomic.AddInt64(&c04MethodCalls, 1); return nil }
+func (t *c04Tempting) Describe() string { atomic.AddInt64(&c04MethodCalls, 1); return "ptr" }
+
+// c04Shapes: host objects whose shape could mislead the conversion - one map, slice or
+// nested document reachable through two fields (no cycle anywhere), several nil maps in one
+// object, embedded structs whose field names repeat the object's own, and types with
+// methods. Every own field reads as its own current value; names that are no field read
+// as null and run no host code. (The stream is shared with C01.)
+func c04Shapes(c *ev.Ctx) {
+	addr := map[string]interface{}{"city": "Oslo", "zip": 150, "geo": map[string]interface{}{"lat": 59.9}}
+	tags := []interface{}{"a", "b"}
+	var nilA, nilB map[string]interface{}
+	var nilC map[string]string
+	type contact struct {
+		Billing map[string]interface{}
+		Postal  map[string]interface{}
+		Third   map[string]interface{}
+		TagsA   []interface{}
+		TagsB   []interface{}
+	}
+	type nils struct {
+		A map[string]interface{}
+		B map[string]interface{}
+		C map[string]string
+		D []interface{}
+		E []interface{}
+		N int
+	}
+	cases := []struct {
+		name, script, want string
+		obj                interface{}
+	}{
+		{"one map behind two fields", `return [Billing.city, Postal.city, Third["zip"], Postal["zip"], len(Postal), type(Postal), type(Third), Postal.geo.lat, Billing.geo.lat, TagsA, TagsB];`, "ARRAY:[Oslo, Oslo, 150, 150, 3, hash, hash, 59.9, 59.9, [a, b], [a, b]]",
+			contact{Billing: addr, Postal: addr, Third: addr, TagsA: tags, TagsB: tags}},
+		{"one map behind two fields, by pointer", `return [Postal.city, Billing.city, len(Billing) == len(Postal), Third.geo.lat, len(TagsB)];`, "ARRAY:[Oslo, Oslo, true, 59.9, 2]",
+			&contact{Billing: addr, Postal: addr, Third: addr, TagsA: tags, TagsB: tags}},
+		{"one map behind two keys of a document", `return [a.city, b.city, c.inner.city, e.x.city, e.y.zip, len(b), len(c.inner), string(e.y.geo) == string(e.x.geo), a.geo.lat + b.geo.lat];`, "ARRAY:[Oslo, Oslo, Oslo, Oslo, 150, 3, 3, true, 119.8]",
+			map[string]interface{}{"a": addr, "b": addr, "c": map[string]interface{}{"inner": addr}, "e": map[string]interface{}{"x": addr, "y": addr}}},
+		{"several nil maps and slices in one object", `return [type(A), type(B), type(C), len(A), len(B), len(C), len(D), len(E), N, A == B];`, "",
+			nils{A: nilA, B: nilB, C: nilC, N: 4}},
+		{"embedded struct first, own fields later", `return [Name, Size];`, "ARRAY:[outer, 3]", c04DocFirst{C04Audit: C04Audit{Name: "inner", By: "bob", Size: 77}, Name: "outer", Size: 3}},
+		{"own fields first, embedded struct last", `return [Name, Size];`, "ARRAY:[outer, 3]", c04DocLast{Name: "outer", Size: 3, C04Audit: C04Audit{Name: "inner", By: "bob", Size: 77}}},
+		{"own fields first, embedded struct last, by pointer", `return [Name, Size, Name + "!"];`, "ARRAY:[outer, 3, outer!]", &c04DocLast{Name: "outer", Size: 3, C04Audit: C04Audit{Name: "inner", By: "bob", Size: 77}}},
+		{"two embedded structs between own fields", `return [Size, Name, Tags, type(Size)];`, "ARRAY:[3, outer, [t], integer]", c04DocTwo{Size: 3, C04Stamp: C04Stamp{Size: 1.5, At: "noon"}, Name: "outer", C04Audit: C04Audit{Name: "inner", Size: 77}, Tags: []string{"t"}}},
+		{"two embedded structs between own fields, by pointer", `return [Size, Name, Tags];`, "ARRAY:[3, outer, [t]]", &c04DocTwo{Size: 3, C04Stamp: C04Stamp{Size: 1.5, At: "noon"}, Name: "outer", C04Audit: C04Audit{Name: "inner", Size: 77}, Tags: []string{"t"}}},
+		{"methods are not fields", `return [Archive, Save, Total, String, Delete, Describe, Count, Label];`, "ARRAY:[null, null, null, null, null, null, 2, l]", c04Tempting{Count: 2, Label: "l"}},
+		{"methods are not fields, by pointer", `if (Count > 1 && Archive) { return "ran"; } x = Delete; y = Total; return [x, y, Save ? 1 : 0, Count, Label, $Describe];`, "ARRAY:[null, null, 0, 2, l, null]", &c04Tempting{Count: 2, Label: "l"}},
+	}
+	for ci, tc := range cases {
+		for _, noOpt := range []bool{false, true} {
+			id := fmt.Sprintf("shapes/%d/%v", ci, noOpt)
+			if !c.Want(id) {
+				continue
+			}
+			evr, err := eng.New(tc.script, eng.Options{NoOptimize: noOpt})
+			c.Case(id, true)
+			if err != nil {
+				c.Violation(id, "prepare", map[string]interface{}{"summary": "Prepare failed: " + err.Error(), "script": tc.script})
+				continue
+			}
+			before := atomic.LoadInt64(&c04MethodCalls)
+			first := ""
+			for run := 1; run <= 3; run++ {
+				o := evr.Exec(tc.obj)
+				got := o.Desc() + " " + errText(o.Err)
+				if run == 1 {
+					first = got
+				}
+				if (tc.want != "" && o.Desc() != tc.want) || o.Panicked || got != first {
+					c.Violation(id, "object shape: "+tc.name, map[string]interface{}{
+						"summary": fmt.Sprintf("%s - %s over %T (noopt=%v, run %d) gives %s, expected %s (run 1 gave %s)", tc.name, tc.script, tc.obj, noOpt, run, got, tc.want, first), "script": tc.script})
+					break
+				}
+			}
+			if n := atomic.LoadInt64(&c04MethodCalls) - before; n != 0 {
+				c.Violation(id, "a script ran methods of the host object", map[string]interface{}{
+					"summary": fmt.Sprintf("%s - %s over %T: %d method call(s) on the host object were made by naming them; only functions the host registers may be reached", tc.name, tc.script, tc.obj, n), "script": tc.script})
 			}
 		}
 	}
